@@ -299,6 +299,18 @@ func TestC09Close(t *testing.T) {
 		case 4:
 			if !weRequest && gsState >= 2 {
 				f.gs.RequestorCancelledListener(other, doubles.Req(inID, nil))
+				if r.Intn(2) == 0 {
+					// ... and somebody still tries to pause / resume the channel whose requester has gone
+					ctx, cancel := context.WithTimeout(bg, 10*time.Second)
+					if r.Intn(2) == 0 {
+						f.tr.PauseChannel(ctx, chid)
+					} else {
+						f.tr.PauseChannel(ctx, chid)
+						f.tr.ResumeChannel(ctx, message.UpdateResponse(chid.ID, false), chid)
+					}
+					cancel()
+					c.Count("pause_after_requester_cancelled", 1)
+				}
 			}
 		case 6:
 			if weRequest {
